@@ -349,6 +349,10 @@ func (c *vfCfg) Args() []string {
 		// the Google provider (the product's default) against the FakeIdP's OAuth2 endpoints
 		a = append(a, "--provider=google", "--login-url=http://"+vfIdpHost+"/authorize", "--redeem-url=http://"+vfIdpHost+"/token",
 			"--validate-url=http://"+vfIdpHost+"/plain/validate")
+	case "azure":
+		// the (deprecated, still shipped) Azure AD provider against the FakeIdP's OAuth2 endpoints; v1 endpoints: no Graph groups
+		a = append(a, "--provider=azure", "--login-url=http://"+vfIdpHost+"/authorize", "--redeem-url=http://"+vfIdpHost+"/token",
+			"--profile-url=http://"+vfIdpHost+"/userinfo")
 	case "keycloak-oidc":
 		a = append(a, "--provider=keycloak-oidc", "--oidc-issuer-url=http://"+vfIdpHost, fmt.Sprintf("--insecure-oidc-skip-nonce=%v", c.SkipNonce))
 	case "plain":
